@@ -11,7 +11,8 @@
   PROVED, for EVERY `R : FloatSpec` with eps ≤ 2^-24, every view shape, every one of the nine border cases, every fractional
   part in [0,1], pixel values in [lo, hi] ⊆ [0, 65535]:
     * the rounded weights are non-negative, at most four, and sum to 1 within [-6 eps, +7 eps]      (C17_float_weights)
-    * lo - 1 < mp < hi + 1 and hence  lo - 1 ≤ result ≤ hi  after the truncating cast               (C17_float_bilinear_between)
+    * lo - 1 < mp < hi + 1 and hence  lo - 1 ≤ result ≤ hi  after the truncating cast               (C17_float_bilinear_between,
+      C17_float_bilinear_range: result ∈ [min - 1, max] of the pixels read)
     * a single tap of weight 1 (the four corner cases) returns the pixel exactly                      (C17_float_single_tap_exact)
     * at integer coordinates inside the view (frac = 0) the result is the source pixel itself          (C17_float_integer_points)
   NOT provable, and FALSE on the real code: `lo ≤ result`.  `C17_float_truncates_below_min_witness`: with the genuine
@@ -76,6 +77,21 @@ theorem C17_float_bilinear_between (R : FloatSpec) (he : R.eps ≤ 1 / 2 ^ 24) (
       have hneg : mp < 0 := not_le.mp h0
       have : ⌊-mp⌋ = 0 := by rw [Int.floor_eq_iff]; constructor <;> push_cast <;> linarith [key.1]
       rw [this]; omega
+
+/-- the clause the property can keep for the float evaluation: the sampled value (after the truncating cast) lies in
+    [min - 1, max] of the pixels read -- stated with `lo` / `hi` the smallest / largest pixel value among the taps -/
+theorem C17_float_bilinear_range (R : FloatSpec) (he : R.eps ≤ 1 / 2 ^ 24) (w h p0x p0y : Int) (src : Int → Int → Int) (fx fy : ℚ)
+    (hx0 : 0 ≤ fx) (hx1 : fx ≤ 1) (hy0 : 0 ≤ fy) (hy1 : fy ≤ 1) (mn mx : Int) (hmn : 0 ≤ mn) (hmx : mx ≤ 65535)
+    (hmin : ∀ t ∈ bilinearTaps (K := RVal R) w h p0x p0y ⟨fx⟩ ⟨fy⟩, mn ≤ src t.x t.y)
+    (hmax : ∀ t ∈ bilinearTaps (K := RVal R) w h p0x p0y ⟨fx⟩ ⟨fy⟩, src t.x t.y ≤ mx)
+    (hne : bilinearTaps (K := RVal R) w h p0x p0y ⟨fx⟩ ⟨fy⟩ ≠ []) :
+    mn - 1 ≤ ctrunc (accR R src (bilinearTaps (K := RVal R) w h p0x p0y ⟨fx⟩ ⟨fy⟩)).v
+    ∧ ctrunc (accR R src (bilinearTaps (K := RVal R) w h p0x p0y ⟨fx⟩ ⟨fy⟩)).v ≤ mx := by
+  obtain ⟨t, ht⟩ := List.exists_mem_of_ne_nil _ hne
+  have hle : mn ≤ mx := le_trans (hmin t ht) (hmax t ht)
+  have := C17_float_bilinear_between R he w h p0x p0y src fx fy hx0 hx1 hy0 hy1 mn mx hmn hle hmx
+    (fun t ht => ⟨hmin t ht, hmax t ht⟩)
+  exact ⟨this.2.2.1, this.2.2.2⟩
 
 /-- a single tap of weight 1 (the four corner cases): the pixel comes out exactly -/
 theorem C17_float_single_tap_exact (R : FloatSpec) (src : Int → Int → Int) (x y : Int) (hb : |((src x y : ℤ) : ℚ)| ≤ R.big) :
